@@ -6,7 +6,7 @@
     hcount, charge and equal bond maps;  [amap_id] = atom_map is the node id;  orders are half-units. *)
 From Coq Require Import List NArith ZArith Bool.
 From SK Require Import lib.LGraph lib.C01_GraphLemmas model.C01_Model model.C02_Model model.C01_Opts model.C01_String model.C01_Renum
-  proof.C01_Proof proof.C01_OptsProof proof.C01_StringProof proof.C01_StringHyd proof.C01_StringPipe proof.C01_StringEH proof.C01_StringRenum.
+  proof.C01_Proof proof.C01_OptsProof proof.C01_StringProof proof.C01_StringHyd proof.C01_StringPipe proof.C01_StringEH proof.C01_StringRenum proof.C01_StringHydExt proof.C01_RenumCentre.
 Import ListNotations.
 Local Open Scope Z_scope.
 
@@ -308,3 +308,22 @@ Theorem C01_renumber : forall f : N -> N, (forall a b, f a = f b -> a = b) -> (f
     set_iamap (relabel f (its_construct (graph_of mr) (graph_of mp))).
 Proof. exact renumber. Qed.
 Print Assumptions C01_renumber.
+
+(** 20. implicit_hydrogen depends only on the labelled graph: two well-formed graphs with the same node labels and the same
+        bond map (whatever the order of their node and edge lists, i.e. whatever order networkx iterates in) give results
+        with the same labels and the same bond map.  (Order independence of the hydrogen bookkeeping of its_to_rsmi.) *)
+Theorem C01_implicit_hydrogen_ext : forall g1 g2 : mgraph, wf g1 -> wf g2 ->
+  (forall n, label g1 n = label g2 n) -> (forall u v, adj g1 u v = adj g2 u v) ->
+  forall pres, geq (implicit_hydrogen g1 pres) (implicit_hydrogen g2 pres).
+Proof. exact implicit_hydrogen_ext. Qed.
+Print Assumptions C01_implicit_hydrogen_ext.
+
+(** 21. ... and the reaction centre (C02's get_rc) of the renumbered reaction is the renumbered reaction centre: the clause
+        "renumbering the atom maps of the reaction yields an isomorphic centre" of C02 at the level of the reaction's
+        molecules (theorem 19 + C02_rc_equivariant + get_rc commutes with atom_map := node id) *)
+Theorem C01_renumber_centre : forall f : N -> N, (forall a b, f a = f b -> a = b) -> (forall a, a <> 0%N -> f a <> 0%N) ->
+  forall mr mp : rmol,
+  get_rc (its_construct (graph_of (renum_mol f mr)) (graph_of (renum_mol f mp))) =
+  set_iamap (relabel f (get_rc (its_construct (graph_of mr) (graph_of mp)))).
+Proof. exact renumber_centre. Qed.
+Print Assumptions C01_renumber_centre.
